@@ -319,6 +319,9 @@ def conclude(pid, tier, seed, merged, cfg, t0, extra_cov=None):
     verdict = {0: "HELD on what was observed", 1: "VIOLATED", 2: "HARNESS ERROR"}[status]
     log("RESULT property=%s tier=%s seed=%d evaluations=%d distinct_nontrivial=%d known_findings=%d fresh_violations=%d wall=%.1fs : %s"
         % (pid, tier, seed, merged["evaluations"], len(merged["distinct"]), len(known), len(fresh), time.time() - t0, verdict))
+    if status == 0 and not os.environ.get("VERIF_KEEP_RUNDIR"):
+        for d in _RUNDIRS:
+            shutil.rmtree(d, ignore_errors=True)
     return status
 
 
@@ -328,9 +331,19 @@ def conclude(pid, tier, seed, merged, cfg, t0, extra_cov=None):
 import properties  # noqa: E402
 
 
+_RUNDIRS = []
+
+
+def register_rundir(path):
+    """Run directories of this process: removed at the end of a run that held (logs are large)."""
+    if path not in _RUNDIRS:
+        _RUNDIRS.append(path)
+    return path
+
+
 def prepare(builds):
     """Under the lock: sync snapshot, build, stage binaries into a private run dir."""
-    rundir = os.path.join(WORK, "run", "%d-%d" % (os.getpid(), int(time.time() * 1000) % 100000))
+    rundir = register_rundir(os.path.join(WORK, "run", "%d-%d" % (os.getpid(), int(time.time() * 1000) % 100000)))
     staged = {}
     with Lock():
         sync_snapshot()
@@ -362,7 +375,7 @@ def cleanup_rundirs(keep=None):
         if p == keep:
             continue
         try:
-            if now - os.path.getmtime(p) > 6 * 3600:
+            if now - os.path.getmtime(p) > 3 * 3600:
                 shutil.rmtree(p, ignore_errors=True)
         except OSError:
             pass
